@@ -806,3 +806,7 @@ def r4(cx):
                          'its name', loc=cb.loc(t))
     for b, blk, t in F.callers_of(lambda names, t: ECS in names):
         cx.site('%s calls env_c_strings at %s' % (b.root, b.loc(t)))
+
+import witness
+witness.add(RS, 'C16.R2w', ['c16_variablerefmut_value', 'c16_variablerefmut_readonly'],
+            'compile-fail witness: neither the value nor the read-only mark can be written through VariableRefMut (E0594); assign() compiles')
